@@ -340,6 +340,39 @@ func mutate(t *Tape, b []byte) ([]byte, string) {
 	}
 }
 
+// propsCut re-encodes a v5 packet so that its body ends k bytes into the property block while the property
+// length still declares the whole block (the remaining length is consistent with the cut): a declared
+// length exceeding the available bytes, which no decoder may accept.
+func propsCut(t *Tape, p *refcodec.Packet, ver byte) ([]byte, bool) {
+	if ver != 5 || len(p.Props) == 0 {
+		return nil, false
+	}
+	full := refcodec.Encode(p, ver, refcodec.EncOpts{})
+	q := *p
+	q.Props = nil
+	bare := refcodec.Encode(&q, ver, refcodec.EncOpts{})
+	f1, fb, _, err1 := refcodec.Frame(full)
+	_, bb, _, err2 := refcodec.Frame(bare)
+	if err1 != nil || err2 != nil {
+		return nil, false
+	}
+	pos := 0
+	for pos < len(fb) && pos < len(bb) && fb[pos] == bb[pos] {
+		pos++
+	}
+	if pos >= len(fb) || pos >= len(bb) || bb[pos] != 0 || fb[pos]&0x80 != 0 {
+		return nil, false // (property blocks of 128 bytes and more are not generated here)
+	}
+	l := int(fb[pos])
+	if l < 2 || pos+1+l > len(fb) {
+		return nil, false
+	}
+	k := t.Draw("mut.propscut", l) // 0..l-1 of the l declared property bytes are present
+	nb := append([]byte(nil), fb[:pos+1+k]...)
+	out := append([]byte{f1}, putVarintH(uint32(len(nb)))...)
+	return append(out, nb...), true
+}
+
 func putVarintH(v uint32) []byte {
 	var b []byte
 	for {
@@ -365,6 +398,9 @@ func genHostile(t *Tape, name string) *Plan {
 	k.CleanPct = 100
 	k.QosW = [3]int{2, 2, 2}
 	k.SubQosW = [3]int{1, 2, 2}
+	// a client may announce a Maximum Packet Size of its own (for what the broker sends to it): one far above the
+	// broker's limit must not change what the broker accepts
+	k.MaxPktChoices = []uint32{0, 100000}
 	g := NewGen(t, &k, name)
 	cfg := &g.plan.Cfg
 	GenSchedConfig(t, cfg)
@@ -398,11 +434,17 @@ func genHostile(t *Tape, name string) *Plan {
 				p = &refcodec.Packet{Type: refcodec.SUBSCRIBE, PacketID: g.pid(0), Filters: []refcodec.Filter{{Filter: "t/#", Opts: 1}, {Filter: "h", Opts: 0}}}
 				if s.ver == 5 {
 					p.Props = refcodec.Props{{ID: refcodec.PSubscriptionID, Int: 7}, {ID: refcodec.PUserProperty, Key: "a", Str: "b"}}
+					if t.Draw("hostile.subidlast", 2) == 1 {
+						p.Props = refcodec.Props{{ID: refcodec.PUserProperty, Key: "a", Str: "b"}, {ID: refcodec.PSubscriptionID, Int: uint32([]int{7, 200}[t.Draw("hostile.subidval", 2)])}}
+					}
 				}
 			case 1:
 				p = &refcodec.Packet{Type: refcodec.PUBLISH, Topic: "t", Qos: byte(t.Draw("hostile.qos", 3)), Payload: fmt.Sprintf("h%d", len(g.plan.Ops)), PacketID: g.pid(0)}
 				if s.ver == 5 {
 					p.Props = refcodec.Props{{ID: refcodec.PContentType, Str: "x"}, {ID: refcodec.PTopicAlias, Int: uint32(1 + t.Draw("hostile.alias", 3))}, {ID: refcodec.PUserProperty, Key: "a", Str: "b"}}
+					if t.Draw("hostile.subidlast", 2) == 1 { // (the decoder admits the property on PUBLISH in both directions)
+						p.Props = append(p.Props, refcodec.Prop{ID: refcodec.PSubscriptionID, Int: uint32([]int{7, 200}[t.Draw("hostile.subidval", 2)])})
+					}
 				}
 			case 2:
 				p = &refcodec.Packet{Type: refcodec.UNSUBSCRIBE, PacketID: g.pid(0), Filters: []refcodec.Filter{{Filter: "t/#"}}}
@@ -421,8 +463,21 @@ func genHostile(t *Tape, name string) *Plan {
 			case 6:
 				p = &refcodec.Packet{Type: refcodec.PINGREQ}
 			}
-			raw, kind := mutate(t, refcodec.Encode(p, s.ver, refcodec.EncOpts{}))
-			g.add(Op{Kind: "raw", Slot: 0, Raw: raw, Note: "mut:" + kind + ":" + refcodec.TypeNames[p.Type]})
+			var raw []byte
+			var kind string
+			if s.ver == 5 && len(p.Props) > 0 && t.Draw("hostile.propscut", 4) == 0 {
+				if b, ok := propsCut(t, p, s.ver); ok {
+					raw, kind = b, "props-cut"
+				}
+			}
+			if raw == nil {
+				raw, kind = mutate(t, refcodec.Encode(p, s.ver, refcodec.EncOpts{}))
+			}
+			note := "mut:" + kind + ":" + refcodec.TypeNames[p.Type]
+			if p.Type == refcodec.PUBLISH {
+				note += ":" + p.Payload
+			}
+			g.add(Op{Kind: "raw", Slot: 0, Raw: raw, Note: note})
 			if t.Draw("hostile.reconnect", 3) == 0 {
 				s.connected = false
 			}
@@ -585,7 +640,16 @@ func checkHostile(r *Result, prop string) []Violation {
 				continue
 			}
 			// effects: a granted SUBACK, or the payload reaching the reference subscriber
-			if ptype == "SUBSCRIBE" && (kind == "truncate-body" || kind == "drop-last-byte" || kind == "length-field" || kind == "remaining-length-over") {
+			if ptype == "PUBLISH" && kind == "props-cut" && len(parts) > 3 && parts[3] != "" {
+				for _, c2 := range r.Ex.Conns {
+					for _, pr := range c2.Pkts {
+						if pr.Seq > inv && pr.P.Type == refcodec.PUBLISH && pr.P.Payload == parts[3] {
+							out = append(out, viol("C27", "malformed-packet-had-effect", fmt.Sprintf("conn %d: PUBLISH whose property block was cut inside a property (bytes % x) is not a valid packet but was forwarded to conn %d (%s)", c.Idx, op.Raw, c2.Idx, pr.P), pr.Seq, "type", ptype, "mutation", kind))
+						}
+					}
+				}
+			}
+			if ptype == "SUBSCRIBE" && (kind == "truncate-body" || kind == "drop-last-byte" || kind == "length-field" || kind == "remaining-length-over" || kind == "props-cut") {
 				for _, pr := range c.Pkts {
 					if pr.Seq > inv && pr.Seq <= q && pr.P.Type == refcodec.SUBACK {
 						for _, rc := range pr.P.ReasonCodes {
@@ -610,7 +674,11 @@ func relevantHostile(r *Result) (bool, []string) {
 	for _, op := range r.Plan.Ops {
 		if strings.HasPrefix(op.Note, "mut:") || op.Note == "oversize-header" {
 			n++
-			probes[op.Note] = true
+			if ps := strings.Split(op.Note, ":"); len(ps) > 3 {
+				probes[strings.Join(ps[:3], ":")] = true
+			} else {
+				probes[op.Note] = true
+			}
 		}
 	}
 	for _, c := range r.Ex.Conns {
